@@ -2476,7 +2476,7 @@ pub fn check_all(out: &RunOut) -> Vec<Violation> {
             check_c03(&ix, &mut v);
             check_c04(&ix, &mut v);
         }
-        "C04" => {
+        "C04" | "C04X" => {
             check_c04(&ix, &mut v);
             check_c03(&ix, &mut v);
         }
